@@ -685,40 +685,69 @@ class Interp:
         return 0
 
     def b_sort(self, args):
-        if args != ['-nrk2,2', '-rk3']:
-            raise Unsupported('sort arguments %r' % (args,))
+        """POSIX sort with -k keys (field separators: blank-to-non-blank transitions; inputs here have single
+        blanks and no leading blanks), modifiers n and r, bytewise collation (LC_ALL=C); last resort: whole line."""
+        import functools
+        import re as _re
+        keys = []
+        for a in args:
+            m = _re.fullmatch(r'-([nr]*)k(\d+)(?:,(\d+))?([nr]*)', a)
+            if not m:
+                raise Unsupported('sort argument %r' % (a,))
+            flags = m.group(1) + m.group(4)
+            keys.append((int(m.group(2)), int(m.group(3)) if m.group(3) else None, 'n' in flags, 'r' in flags))
+        if not keys:
+            raise Unsupported('sort without keys')
         lines = self.stdin[-1] if self.stdin else []
 
-        def key(l):
+        def field(l, a, b):
             f = l.split(' ')
-            # fields are separated at the transition from non-blank to blank; leading blanks belong
-            # to the field -- inputs here have single spaces and no leading blanks
-            try:
-                n = int(f[1])
-            except Exception:
-                n = 0
-            return n, ' '.join(f[2:])
-        import functools
+            return ' '.join(f[a - 1:(b if b is not None else len(f))])
 
-        def cmp(a, b):
-            ka, kb = key(a), key(b)
-            if ka[0] != kb[0]:
-                return -1 if ka[0] > kb[0] else 1
-            if ka[1] != kb[1]:
-                return -1 if ka[1].encode() > kb[1].encode() else 1
-            if a != b:
-                return -1 if a.encode() < b.encode() else 1
+        def num(x):
+            m = _re.match(r'\s*(-?\d+)', x)
+            return int(m.group(1)) if m else 0
+
+        def cmp(x, y):
+            for (a, b, n, r) in keys:
+                fx, fy = field(x, a, b), field(y, a, b)
+                if n:
+                    kx, ky = num(fx), num(fy)
+                else:
+                    kx, ky = fx.encode(), fy.encode()
+                if kx != ky:
+                    c = -1 if kx < ky else 1
+                    return -c if r else c
+            if x != y:
+                return -1 if x.encode() < y.encode() else 1
             return 0
-        res = sorted(lines, key=functools.cmp_to_key(cmp))
-        for l in res:
+        for l in sorted(lines, key=functools.cmp_to_key(cmp)):
             self.out(l + '\n')
         return 0
 
     def b_cut(self, args):
-        if args != ['-f1', '-d ']:
+        import re as _re
+        if len(args) != 2:
             raise Unsupported('cut arguments %r' % (args,))
+        spec = {}
+        for a in args:
+            if a.startswith('-f'):
+                spec['f'] = a[2:]
+            elif a.startswith('-d') and len(a) == 3:
+                spec['d'] = a[2]
+            else:
+                raise Unsupported('cut argument %r' % (a,))
+        m = _re.fullmatch(r'(\d+)(-)?(\d+)?', spec.get('f', ''))
+        if not m or 'd' not in spec:
+            raise Unsupported('cut arguments %r' % (args,))
+        lo = int(m.group(1))
+        hi = lo if not m.group(2) else (int(m.group(3)) if m.group(3) else None)
         for l in (self.stdin[-1] if self.stdin else []):
-            self.out(l.split(' ')[0] + '\n')
+            f = l.split(spec['d'])
+            if len(f) == 1:
+                self.out(l + '\n')      # lines without the delimiter are passed through
+            else:
+                self.out(spec['d'].join(f[lo - 1:hi]) + '\n')
         return 0
 
     # -- arithmetic ----------------------------------------------------------------------------
